@@ -68,6 +68,7 @@ def linear_rules(ctx):
     ctx.check(len(idx) == 1, R + '/same-index', 'T-CARRY', b.name, 'probe, fold and removal use different indices %s' % sorted(idx), b.site())
     ret_is_used(ctx, R, b)
     bound_rule(ctx, R, 'all-terms', b, bl, h, ('terms',), 'v1::Linear', 'the term loop')
+    pe.every_iteration_passes(ctx, R + '/all-terms/every-term-probed', b, bl, h, pe.index_loop_bound(ctx, b, bl, h, ('terms',), 'v1::Linear')[1], {pr[0].bb}, 'the lookup of the term id')
     pe.no_bypass(ctx, R + '/all-terms/no-bypass', b, h, 'the term loop', ('v1::Linear', 'terms'))
 
 
@@ -159,14 +160,27 @@ def quadratic_rules(ctx):
             # None only where map.is_empty() && constant == 0
             g1 = [g for c in b.calls if c.item == 'is_empty' and 'BTreeMap' in c.name and pe.root_of(b, c.args[0]) == map_l for g in T.guards_from_call(b, c)]
             g2 = []
-            for b2, st2 in float_cmp_sites(b, ('Eq',)):
+            for b2, st2 in float_cmp_sites(b, ('Eq', 'Ne')):
                 ops = st2['rv']['ops']
                 if any(o['k'] == 'const' and o['v'] in ('0f64', '-0f64') for o in ops) and any(T.expr(b, o)[0] in ('local', 'place') and T.expr(b, o)[1] in cls and not (len(T.expr(b, o)) > 2 and T.expr(b, o)[2]) for o in ops):
-                    g2 += T.guards_from_local(b, st2['dst']['l'], b2)
+                    # constant == 0.0 (true side = zero)  |  constant != 0.0 (false side = zero)
+                    g2 += [g if st2['rv']['op'] == 'Eq' else pe.Swapped(g) for g in T.guards_from_local(b, st2['dst']['l'], b2)]
             def only_true(g): return g.true_bb is not None and nb in pe.walk(b, [g.true_bb])[0] and (g.false_bb is None or nb not in pe.walk(b, [g.false_bb])[0])
             ctx.check(any(only_true(g) for g in g1) and any(only_true(g) for g in g2), R + '/result/none-only-when-empty', 'T-GUARD', b.name, 'linear part is dropped although coefficients or a constant remain', b.site(nb))
     ret_is_used(ctx, R, b)
     bound_rule(ctx, R, 'all-entries', b, bl2, h2, ('rows', 'columns', 'values'), 'v1::Quadratic', 'the main loop')
+    # an entry that is skipped before its ids are looked up stays in place with its (possibly fixed) ids
+    pe.every_iteration_passes(ctx, R + '/all-entries/every-entry-probed', b, bl2, h2, pe.index_loop_bound(ctx, b, bl2, h2, ('rows', 'columns', 'values'), 'v1::Quadratic')[1], {p_row.bb}, 'the lookup of the row id')
+    lin_loops = [lo for lo in T.for_loops(b) if p_id.bb in lo[4]]
+    if lin_loops:
+        m_ = min(len(l[4]) for l in lin_loops)
+        cands_ = [l for l in lin_loops if len(l[4]) == m_]
+        # nested `next` calls in one natural loop (flat_map normal form): the innermost one is the loop over the terms
+        lo1 = next((l for l in cands_ if all(b.dominates(o[0].bb, l[0].bb) for o in cands_)), cands_[0])
+        loop_must(ctx, R + '/linear-part/every-term-probed', b, lo1, lambda c: c is p_id, 'state.get(term.id)')
+        pe.no_early_exit(ctx, R + '/linear-part/no-early-exit', b, lo1)
+    else:
+        ctx.bad(R + '/linear-part/every-term-probed', 'T-LOOPMUST', b.name, 'the terms of the linear part are not visited by a loop', b.site())
     pe.no_bypass(ctx, R + '/all-entries/no-bypass', b, h2, 'the main loop')
 
 
@@ -204,12 +218,11 @@ def polynomial_rules(ctx):
     ctx.check(info.adds_value, R + '/collect/adds-value', 'T-BRANCHFX', b.name, 'monomial value is not added to the entry of its remaining ids', b.site())
     # skipping is allowed only for |coefficient| <= EPSILON; otherwise the entry is reached
     skips = set()
-    for bi, st in float_cmp_sites(b, ('Le', 'Lt')):
-        if bi in outer[4] and any(o2['k'] == 'const' and 'EPSILON' in o2['v'] for o2 in st['rv']['ops']):
-            oth = [o2 for o2 in st['rv']['ops'] if o2['k'] != 'const']
-            ax = T.expr(b, oth[0]) if oth else ('local', -1)
-            if oth and T.expr_has_call(ax, 'abs') and (('v1::Monomial', 'coefficient') in T.expr_fields(ax) or any(x[0] in ('local', 'place') and x[1] == vl for x in T.expr_walk(ax))):
-                for g in T.guards_from_local(b, st['dst']['l'], bi): skips.add(g.true_bb)
+    for bi, st, small in pe.small_tests(b, set(outer[4])):
+        oth = [o2 for o2 in st['rv']['ops'] if o2['k'] != 'const']
+        ax = T.expr(b, oth[0]) if oth else ('local', -1)
+        if oth and T.expr_has_call(ax, 'abs') and (('v1::Monomial', 'coefficient') in T.expr_fields(ax) or any(x[0] in ('local', 'place') and x[1] == vl for x in T.expr_walk(ax))):
+            for g in T.guards_from_local(b, st['dst']['l'], bi): skips.add(g.true_bb if small else g.false_bb)
     ctx.check(bool(info.acc_blocks) and T.must_pass(b, outer[2], {outer[1]}, info.acc_blocks | skips), R + '/collect/every-term', 'T-LOOPMUST', b.name, 'a monomial can bypass the result map', b.site())
     # ---- self.terms rebuilt from the map: Monomial { ids: key, coefficient: value } for every entry
     ws = writes_to_self_field(b, 'v1::Polynomial', 'terms')
@@ -330,6 +343,19 @@ def instance_rules(ctx):
             o = st['rv']['ops'][0]
             miss = [f for f, c in found.items() if not (o['k'] in ('copy', 'move') and o['pl']['l'] in pe.flows_from(b, c.dst['l']))]
             ctx.check(not miss and len(found) == 4, R + '/returns-union', 'T-CARRY', b.name, 'returned set misses the ids reported for %s' % miss, b.site(e))
+    # ... and of nothing else: whatever is merged into the returned set comes from a partial_evaluate result
+    # ("contains only fixed variables that actually occurred": an id taken from the state / the variable list did not)
+    rets = [st['rv']['ops'][0] for e, k, st in b.ret_assignments() if k == 'ok' and st['rv']['ops'][0]['k'] in ('copy', 'move')]
+    if rets and found:
+        roots = {pe.root_of(b, o) for o in rets}
+        flows = set()
+        for c in found.values(): flows |= pe.flows_from(b, c.dst['l'])
+        foreign = []
+        for c in b.calls:
+            if (pe.MERGE_CALL.search(c.name) or SET_SINK.search(c.name)) and len(c.args) >= 2 and pe.root_of(b, c.args[0]) in roots:
+                a = c.args[1]
+                if not (a['k'] in ('copy', 'move') and (a['pl']['l'] in flows or pe.root_of(b, a) in flows)): foreign.append(c)
+        ctx.check(not foreign, R + '/returns-union/only-reported', 'T-CARRY', b.name, 'the returned set also receives ids that no partial_evaluate reported (%s)' % ', '.join(sorted({c.item + '@' + b.site(c.bb).split(':')[-1] for c in foreign})), b.site())
     # substituted_value <- the state's value for the variable's own id, for every variable with a value
     loops = [lo for lo in T.for_loops(b) if pe.from_self_field(ctx, b, lo[0].args[0], INST, 'decision_variables')]
     pr = probes_in(b)
@@ -365,4 +391,4 @@ def instance_rules(ctx):
 def check(ctx):
     linear_rules(ctx); quadratic_rules(ctx); polynomial_rules(ctx); delegate_rules(ctx); instance_rules(ctx)
     pe.unmark(ctx)
-    ctx.floor('C03.linear', 9); ctx.floor('C03.quadratic', 18); ctx.floor('C03.polynomial', 18); ctx.floor('C03.delegate', 15); ctx.floor('C03.instance', 41)
+    ctx.floor('C03.linear', 10); ctx.floor('C03.quadratic', 22); ctx.floor('C03.polynomial', 18); ctx.floor('C03.delegate', 15); ctx.floor('C03.instance', 42)
